@@ -32,16 +32,19 @@ StringCmds ==
   \cup {<<L_ttl, k1>>, <<L_persist, k1>>, <<L_expire, k1, B(100)>>}
   \cup {<<<<83, 69, 84>>, k1, <<97>>>>, <<<<71, 101, 84>>, k1>>}   \* SET / GeT: command names are case-insensitive
 
-StringInit == [db |-> (kl :> ListV(<<<<97>>>>)), exp |-> <<>>]
+StringSetup == << <<L_rpush, kl, <<97>>>> >>
 \* bound: k1 holds strings of length <= 3, every other string has length <= 1
 StringBound(s) == \A k \in DOMAIN s.db : s.db[k].t = "string" => Len(s.db[k].v) <= (IF k = k1 THEN 3 ELSE 1)
 
 \* ---- numeric instance: one key, 64-bit integer and exact-decimal arithmetic ----
-NumVals == {<<48>>, <<49>>, <<45,49>>, <<57>>, <<97>>, <<>>, BigStr(Int64Max), BigStr(Int64Min), <<49,46,53>>, <<48,48,55>>}
+NumVals == {<<48>>, <<49>>, <<45,49>>, <<57>>, <<97>>, <<>>, BigStr(Int64Max), BigStr(Int64Min), <<48,48,55>>}
+FloatVals == {<<49,46,53>>, <<97>>, <<>>, <<50>>}
 NumCmds ==
        {<<L_set, k1, v>> : v \in NumVals} \cup {<<L_get, k1>>, <<L_incr, k1>>, <<L_decr, k1>>, <<L_del, k1>>, <<L_incr, kl>>, <<L_incrby, kl, <<49>>>>}
   \cup {<<c, k1, n>> : c \in {L_incrby, L_decrby}, n \in {<<53>>, <<45,49>>, <<97>>, BigStr(Int64Max), BigStr(Int64Min), <<>>}}
-  \cup {<<L_incrbyfloat, k1, n>> : n \in {<<49,46,53>>, <<45,48,46,53>>, <<97>>, <<50>>}} \cup {<<L_incrbyfloat, kl, <<49>>>>}
-  \cup {<<L_incr>>, <<L_incrby, k1>>, <<L_incrbyfloat, k1>>, <<L_decrby, k1, <<49>>, <<49>>>>}
-NumBound(s) == \A k \in DOMAIN s.db : s.db[k].t = "string" => (Len(s.db[k].v) <= 2 \/ Len(s.db[k].v) >= 18 \/ s.db[k].v \in NumVals)
+  \* float arithmetic on its own key so that operands stay in the exactly-representable subset (DESIGN.md 2.4)
+  \cup {<<L_set, K1, v>> : v \in FloatVals} \cup {<<L_get, K1>>}
+  \cup {<<L_incrbyfloat, K1, n>> : n \in {<<49,46,53>>, <<45,48,46,53>>, <<97>>, <<50>>, <<48,46,50,53>>}} \cup {<<L_incrbyfloat, kl, <<49>>>>}
+  \cup {<<L_incr>>, <<L_incrby, k1>>, <<L_incrbyfloat, K1>>, <<L_decrby, k1, <<49>>, <<49>>>>}
+NumBound(s) == \A k \in DOMAIN s.db : s.db[k].t = "string" => (Len(s.db[k].v) <= (IF k = K1 THEN 3 ELSE 2) \/ s.db[k].v \in NumVals)
 =============================================================================
